@@ -85,3 +85,21 @@ Proof.
   split; [reflexivity|]. split; [reflexivity|].
   eexists. split; [vm_compute; reflexivity|]. split; [vm_compute; reflexivity|discriminate].
 Qed.
+
+(* non-vacuity of the bookkeeping for fields without presence: one field descriptor (z, no presence) reached through
+   three paths of one options message is set three times, zero values included, and accepted by model and
+   specification alike; the first path once more is rejected by both as already set *)
+Definition nv_paths : list stmt :=
+  [mkStmt [PExt "foo"; PField "z"] (OUint 0);
+   mkStmt [PExt "foo"; PField "sub"; PField "z"] (OUint 0);
+   mkStmt [PExt "foo"; PField "sub"; PField "sub"; PField "z"] (OUint 5)].
+Example C20_same_field_through_several_paths :
+  (exists m, interpret_strict nv_schema 3%N 0%nat [] nv_paths = Ok (m, []) /\
+             protoc_interpret nv_schema 3%N true 0%nat [] nv_paths = Ok m) /\
+  interpret_strict nv_schema 3%N 0%nat [] (nv_paths ++ [mkStmt [PExt "foo"; PField "z"] (OUint 7)]) = Err EAlreadySet /\
+  same_outcome (interpret_strict nv_schema 3%N 0%nat [] (nv_paths ++ [mkStmt [PExt "foo"; PField "z"] (OUint 7)]))
+               (protoc_interpret nv_schema 3%N true 0%nat [] (nv_paths ++ [mkStmt [PExt "foo"; PField "z"] (OUint 7)])).
+Proof.
+  split; [eexists; split; vm_compute; reflexivity|]. split; [vm_compute; reflexivity|].
+  apply C20_interpret_eq_protoc; reflexivity.
+Qed.
